@@ -41,6 +41,9 @@ type cfgData struct {
 	longRun bool
 	// closers: number of goroutines calling Close at the chosen round (default 1)
 	closers int
+	// pollAt: (Poll-type query) round at which another goroutine calls Poll on
+	// the reconnecting client, on a transport that has stalled; 0 = never
+	pollAt int
 	cache   bool   // b: CacheClient instead of BaseClient
 	resps   string // c: response sequence
 	qtype   client.Type
@@ -125,6 +128,15 @@ func configsBase(tier string) []xplore.Config {
 			out = append(out, xplore.Config{Name: fmt.Sprintf("a: reconnect over scripted client attempts=%v, TWO goroutines Close at round %d", sc, c), Bound: bound - 1, Data: cfgData{part: "a", attempts: sc, closeAt: c, closers: 2}})
 		}
 	}
+	// a Poll-type query: another goroutine polls on a transport that has stalled
+	// (the poll neither completes nor fails by itself), Close at that round or later
+	for _, sc := range [][]string{{"park"}, {"err", "park"}} {
+		for _, pa := range []int{1, 2} {
+			for _, c := range []int{0, 1, 2, 99} {
+				out = append(out, xplore.Config{Name: fmt.Sprintf("a: reconnect over scripted client (Poll query) attempts=%v, a Poll on a stalled transport issued at round %d, closeAtRound=%d", sc, pa-1, c), Bound: bound - 1, Data: cfgData{part: "a", attempts: sc, closeAt: c, pollAt: pa}})
+			}
+		}
+	}
 	// (c) response sequences through the real gnmi client decode
 	for _, qt := range []client.Type{client.Stream, client.Once, client.Poll} {
 		for _, rs := range seqsOf([]string{"u", "d", "s", "e", "x", "m"}, 3) {
@@ -201,11 +213,17 @@ type scriptClient struct {
 	n      int
 	closeC chan struct{}
 	closed bool
+	cur    context.Context // context of the attempt in progress
+	// stalledPoll: Poll reads from a stream that delivers nothing (it returns
+	// when the attempt's context ends or the client is closed), as a poll on a
+	// stalled transport does
+	stalledPoll bool
 }
 
 func (c *scriptClient) Subscribe(ctx context.Context, q client.Query, _ ...string) error {
 	i := c.n
 	c.n++
+	c.cur = ctx
 	c.tr.add("attempt#%d", i)
 	defer func() {
 		if ctx.Err() != nil {
@@ -251,7 +269,20 @@ func (c *scriptClient) Subscribe(ctx context.Context, q client.Query, _ ...strin
 		return errors.New("closed")
 	}
 }
-func (c *scriptClient) Poll() error { return nil }
+func (c *scriptClient) Poll() error {
+	if !c.stalledPoll || c.cur == nil {
+		return nil
+	}
+	c.tr.add("poll-stalled")
+	switch vrt.Select(false, vrt.R(c.cur.Done()), vrt.R(c.closeC)) {
+	case 0:
+		vrt.RecvNow(c.cur.Done())
+		return c.cur.Err()
+	default:
+		vrt.RecvNow(c.closeC)
+		return errors.New("closed")
+	}
+}
 func (c *scriptClient) Close() error {
 	if !c.closed {
 		c.closed = true
@@ -429,7 +460,7 @@ func (harness) Run(cfg xplore.Config, ch vrt.Chooser, trace bool) (xplore.Outcom
 		conns := 0
 		switch d.part {
 		case "a":
-			inner = &scriptClient{tr: tr, script: d.attempts, closeC: make(chan struct{})}
+			inner = &scriptClient{tr: tr, script: d.attempts, closeC: make(chan struct{}), stalledPoll: d.pollAt > 0}
 		case "b":
 			client.ResetRegisteredImpls()
 			client.RegisterTest("scripted", func(ctx context.Context, dst client.Destination) (client.Impl, error) {
@@ -464,6 +495,9 @@ func (harness) Run(cfg xplore.Config, ch vrt.Chooser, trace bool) (xplore.Outcom
 		rc := client.Reconnect(inner, func() { tr.add("DISCONNECT") }, func() { tr.add("RESET") })
 		client.VerifSetBackoffClock(rc, vclock{})
 		q := client.Query{Addrs: []string{"addr"}, Target: "t", Type: client.Stream, Queries: []client.Path{{"*"}}, NotificationHandler: handler}
+		if d.pollAt > 0 {
+			q.Type = client.Poll
+		}
 		subReturned, closeReturned, closeInvoked := false, false, false
 		var subErr error
 		closeStarted, closeDone := 0, 0
@@ -502,6 +536,13 @@ func (harness) Run(cfg xplore.Config, ch vrt.Chooser, trace bool) (xplore.Outcom
 			rounds = 60
 		}
 		for round := 0; round < rounds; round++ {
+			if d.pollAt > 0 && d.pollAt == round+1 {
+				vrt.GoNamed("poller", func() {
+					tr.add("POLL")
+					err := rc.Poll()
+					tr.add("POLL-RETURNED(%v)", err != nil)
+				})
+			}
 			if d.closeAt == round {
 				vrt.GoNamed("closer", doClose)
 				for k := 1; k < d.closers; k++ {
